@@ -118,7 +118,7 @@ void hashmap_delete(HashMap *map, char *key) { int i = hm_find(map, key, hm_strl
 #ifndef FORM
 #define FORM 0
 #endif
-struct IN_t { int q0, p, q1, q2, n; int depth, la, da, lb, db, lc, dc; } IN;
+struct IN_t { int q0, p, q1, q2, n; int depth, la, da, lb, db, lc, dc; int lm; } IN;
 struct IN_t nondet_IN(void);
 
 static File F = { .name = "f.c", .display_name = "f.c", .file_no = 1, .contents = "" };
@@ -133,10 +133,18 @@ static Token *mk(TokenKind k, char *sp, int line, bool bol) {
 }
 
 static Token *r0, *rw, *r1, *rx, *r2, *reof;   // result tokens
+static void run_form(bool macro_operand);
 static void run(void) {
   HAVOC_IN();
   __CPROVER_assume(1 <= IN.q0 && IN.q0 < IN.p && IN.p < IN.q1 && IN.q1 < IN.q2 && IN.q2 <= (1 << 20));
   __CPROVER_assume(0 <= IN.n && IN.n <= (1 << 30));
+  run_form(false);
+}
+// macro_operand: the directive is `#line L` with `#define L <n>` written on physical line IN.lm (anywhere)
+static void run_form(bool macro_operand) {
+  first = last = NULL;
+  F.line_delta = 0;
+  verif_fmt_calls = 0;
   mk(TK_IDENT, "__LINE__", IN.q0, true);
   Token *w = mk(TK_IDENT, "W", IN.q0, false);       // an ordinary token BEFORE the directive
 #ifdef INCOND          // the directive sits inside a conditional group:  #ifdef __LINE__ ... #endif
@@ -144,8 +152,17 @@ static void run(void) {
 #endif
   mk(TK_PUNCT, "#", IN.p, true);
   if (FORM == 0) mk(TK_IDENT, "line", IN.p, false);
-  Token *num = mk(TK_PP_NUM, "5", IN.p, false);
-  num->val = IN.n;
+  if (macro_operand) {
+    Token *body = calloc(1, sizeof(Token)), *bend = calloc(1, sizeof(Token));
+    body->kind = TK_PP_NUM; body->loc = "5"; body->len = 1; body->file = &F; body->line_no = IN.lm; body->val = IN.n; body->has_space = true;
+    bend->kind = TK_EOF; bend->loc = ""; bend->file = &F; bend->line_no = IN.lm; bend->at_bol = true;
+    body->next = bend;
+    add_macro("L", true, body);
+    mk(TK_IDENT, "L", IN.p, false);
+  } else {
+    Token *num = mk(TK_PP_NUM, "5", IN.p, false);
+    num->val = IN.n;
+  }
   mk(TK_IDENT, "__LINE__", IN.q1, true);
   Token *x = mk(TK_IDENT, "X", IN.q1, false);
   mk(TK_IDENT, "__LINE__", IN.q2, true);
@@ -163,6 +180,19 @@ static void run(void) {
   VASSERT(r0->kind == TK_NUM && rw == w && r1->kind == TK_NUM && rx == x && r2->kind == TK_NUM && reof->kind == TK_EOF,
           "output is  NUM W NUM X NUM EOF  (the directive line vanished, each __LINE__ became a number)");
   VASSERT(verif_fmt_calls == 3, "three __LINE__ expansions");
+}
+
+// C11 6.10.4p5: a #line operand that is not a digit sequence is macro-replaced and then processed as if it had been written
+// literally - WHERE the macro was defined must not matter.  Differential: the same file with `#line L` (L defined on an
+// arbitrary line) and with the literal; every observable of the two runs agrees.
+void h_line_macro_operand(void) {
+  run();
+  long a0 = r0->val, a1 = r1->val, a2 = r2->val; int ax = rx->line_no, ae = reof->line_no;
+  __CPROVER_assume(1 <= IN.lm && IN.lm <= (1 << 20));
+  run_form(true);
+  VASSERT(r0->val == a0 && r1->val == a1 && r2->val == a2, "__LINE__ after `#line L` == after `#line <replacement of L>`, wherever L was defined");
+  VASSERT(rx->line_no == ax && reof->line_no == ae, "diagnostic/.loc lines after `#line L` == after the literal form");
+  VCOVER();
 }
 
 void h_line_before(void) {
